@@ -48,6 +48,8 @@ PROPS = {
         required_features={"quick": ["double_check", "white_pawn_attacker", "black_pawn_attacker", "square_with_3plus_attackers"]}),
     "C18": dict(plan(), rule="every streamed position against its colour-swapped vertical mirror, and (without castling rights) its left-right mirror; non-trivial = position that is not its own image and has a special move or check", explanation="metamorphic: library against library on mirrored inputs (legal and semilegal move sets, is_check, has_legal_moves, calc_outcome with winner swapped, attack maps); no reference model in the verdict", assumptions=["the harness's mirror maps on positions and moves are correct (they are involutions, checked in the self-test)"] + MODEL_ASSUMPTIONS[2:],
         required_features={"quick": ["vmirror_pairs", "hmirror_pairs", "black_to_move", "with_mark", "with_castling_rights", "pos_with_special_move"]}),
+    "C12": dict(plan(), rule="texts: every string of <= 3 symbols over a 45-symbol set through all entry points (position-dependent ones in 24 positions), 4-5 symbol strings over 14-symbol UCI/SAN sub-alphabets, valid FEN/UCI/SAN/list/square/cell/colour/castling texts with all truncations and multi-byte splices at every boundary, random single/double edits, random UTF-8, 64 KiB inputs; distinct = distinct text", explanation="each call runs under catch_unwind with a silent panic hook; a panic is a violation whose signature is (entry point, panic site); every returned value is formatted and parsed back", assumptions=["a parser abort that is not a Rust panic would kill the shard and be reported as inconclusive unless a sanitizer names it"] + MODEL_ASSUMPTIONS[3:],
+        required_features={"quick": ["accepted_fen", "accepted_uci", "accepted_san", "accepted_coord", "accepted_cell", "accepted_color", "accepted_castling", "accepted_uci_list", "accepted_san_in_position", "exhaustive_short_strings", "truncations_and_splices", "long_inputs"]}),
 }
 
 LEVEL_TEXT = {}
